@@ -36,14 +36,16 @@ CONSTANTS Forks,     \* part 2/3: forks to enumerate (subset of the names in For
           Kinds,     \* part 2: baseline transaction types to enumerate
           Tos,       \* part 2: subset of {"call", "create"}
           MaxDev,    \* part 2: at most this many simultaneous deviations from the baseline
+          DevDims,   \* part 2: the dimensions that may deviate (all of DimSeq, or a subset whose full product is wanted)
           MaxHist    \* part 3: bound on the history length
 
 VARIABLES sel,       \* part 2: the selected case  [fork, kind, to, devs]
           fork,      \* part 3: fork of the opened Evm ("" before `open`)
           world,     \* part 3: [nonce, sbal, rbal, cbal, burnt, minted]
           last,      \* part 3: verdict of the last submission (TRUE = accepted)
+          ghost,     \* part 3: the most recent submission that had no effect (see ViewHist)
           hist       \* part 3: operations so far (hidden by View)
-vars == <<sel, fork, world, last, hist>>
+vars == <<sel, fork, world, last, ghost, hist>>
 
 None == -1
 Huge == 536870912          \* 2^29, the model value of 2^256-1
@@ -321,7 +323,8 @@ EmitCase(s) ==
     IN PrintT("CASE " \o ToJson(
          [hist |-> <<>>,
           op |-> [op |-> "validate", fork |-> s.fork, kind |-> s.kind, devs |-> s.devs, tx |-> c.tx,
-                  sender |-> c.sender, block |-> c.block, cfg |-> CaseCfg, violated |-> bad],
+                  sender |-> c.sender, block |-> c.block, cfg |-> CaseCfg,
+                  violated |-> bad, cost |-> c.cost],        \* diagnostics: broken rules, maximal cost (TooBig = does not fit)
           post |-> [preverify |-> ok, transact |-> ok]]))
 
 ChooseBaseline ==
@@ -329,19 +332,22 @@ ChooseBaseline ==
     /\ \E f \in Forks, k \in Kinds, t \in Tos :
          LET s2 == [fork |-> f, kind |-> k, to |-> t, devs |-> <<>>] IN
          sel' = s2 /\ EmitCase(s2)
-    /\ UNCHANGED <<fork, world, last, hist>>
+    /\ UNCHANGED <<fork, world, last, ghost, hist>>
 
 Deviate ==
     /\ sel # NoSel
     /\ Len(sel.devs) < MaxDev
     /\ LET c == Concrete(sel) IN
-       \E i \in (LastIdx(sel) + 1)..Len(DimSeq) : \E a \in Alternatives(sel, c, DimSeq[i]) :
+       \E i \in (LastIdx(sel) + 1)..Len(DimSeq) :
+        /\ DimSeq[i] \in DevDims
+        /\ \E a \in Alternatives(sel, c, DimSeq[i]) :
           LET s2 == [sel EXCEPT !.devs = Append(@, <<DimSeq[i], a>>)] IN
           sel' = s2 /\ EmitCase(s2)
-    /\ UNCHANGED <<fork, world, last, hist>>
+    /\ UNCHANGED <<fork, world, last, ghost, hist>>
 
 World0 == [nonce |-> 5, sbal |-> 3000000, rbal |-> 9, cbal |-> 7, burnt |-> 0, minted |-> 0]
-InitCases == sel = NoSel /\ fork = "" /\ world = World0 /\ last = TRUE /\ hist = <<>>
+NoGhost == [op |-> "", cls |-> ""]
+InitCases == sel = NoSel /\ fork = "" /\ world = World0 /\ last = TRUE /\ ghost = NoGhost /\ hist = <<>>
 NextCases == ChooseBaseline \/ Deviate
 ViewCases == sel
 
@@ -412,10 +418,11 @@ HistBlock(f) == [gas_limit |-> BlockGasLimit, base_fee |-> 10,
                  prevrandao |-> From(f, "MERGE")]
 Sender(w) == [nonce |-> w.nonce, balance |-> w.sbal, code |-> "none"]
 HistGas == 60000
-Deposit == 500000
+Deposit == 1000000
+BigValue == 3000000       \* more than the initial balance, less than balance + Deposit
 
 HistClasses ==
-    <<"ok", "ok2930", "ok1559", "ok4844", "ok7702", "drain", "overdraw", "nonce_low", "nonce_high",
+    <<"ok", "ok2930", "ok1559", "ok4844", "ok7702", "big", "drain", "overdraw", "nonce_low", "nonce_high",
       "over_block", "chain_wrong", "intrinsic_low", "fee_zero", "fee_low", "prio_high", "blob_price",
       "blob_none", "auth_empty", "al_early">>
 
@@ -431,6 +438,7 @@ HistTx(cls, w, f) ==
          [] cls = "ok1559" -> dyn
          [] cls = "ok4844" -> blob
          [] cls = "ok7702" -> [dyn EXCEPT !.auth = 1]
+         [] cls = "big" -> [b EXCEPT !.value = BigValue]                         \* affordable only after a deposit
          [] cls = "drain" -> [b EXCEPT !.value = w.sbal - HistGas * 12]          \* maximal cost = balance
          [] cls = "overdraw" -> [b EXCEPT !.value = w.sbal - HistGas * 12 + 1]   \* one wei short (found after the account is loaded)
          [] cls = "nonce_low" -> [b EXCEPT !.nonce = w.nonce - 1]
@@ -476,8 +484,12 @@ ProjOf(f, w, l) == [fork |-> f, nonce |-> w.nonce, sbal |-> w.sbal, rbal |-> w.r
 
 Emit(op, post) == PrintT("EDGE " \o ToJson([hist |-> hist, pre |-> Proj, op |-> op, post |-> post]))
 
+\* A submission that leaves the world alone (rejected, or validation only) is remembered in
+\* `ghost`.  The specification never reads it: that is the property.  It is part of the view so
+\* that the dump contains, for every world, histories in which such a submission came before.
 Step(op, f, w, l) ==
     /\ fork' = f /\ world' = w /\ last' = l /\ hist' = Append(hist, op)
+    /\ ghost' = IF op.op \in {"transact_commit", "preverify"} /\ w = world THEN [op |-> op.op, cls |-> op.cls] ELSE ghost
     /\ Emit(op, ProjOf(f, w, l))
     /\ UNCHANGED sel
 
@@ -515,7 +527,7 @@ Credit == /\ fork # ""
 InitHist == InitCases
 NextHist == /\ Len(hist) < MaxHist
             /\ (Open \/ Transact \/ Preverify \/ Credit)
-ViewHist == <<fork, world, last>>
+ViewHist == <<fork, world, last, ghost>>
 
 \* ---- the property's second sentence, as properties of the specification
 LastOp == hist'[Len(hist')]
